@@ -2,6 +2,8 @@
 outside world (np, open, os, shutil, multiprocessing, Pool, tqdm, ct, plt, map_coordinates ...).
 Python resolves a global at call time, so the repository's own function objects are executed
 unchanged; no source edit and no hook is needed."""
+import fnmatch as _fnmatch
+import glob as _glob_mod
 import importlib
 import os as _os
 import posixpath
@@ -237,6 +239,73 @@ class OsFacade:
             yield from self.walk(posixpath.join(top, d))
 
 
+class GlobFacade:
+    """glob over the SymFS: CPython's algorithm (directory part expanded first, names matched with fnmatch, the spelled
+    directory part kept verbatim in the results, dot files only for patterns that start with a dot, sorted listing
+    order = the SymFS's).  recursive '**' is not modelled."""
+
+    def __init__(self, fs):
+        self._fs = fs
+
+    @staticmethod
+    def has_magic(s):
+        return any(c in s for c in '*?[')
+
+    escape = staticmethod(_glob_mod.escape)
+
+    def glob(self, pathname, *, root_dir=None, dir_fd=None, recursive=False, include_hidden=False):
+        if root_dir is not None or dir_fd is not None or (recursive and '**' in pathname):
+            raise NotImplementedError('symx: glob(root_dir / dir_fd / recursive **) is not modelled')
+        return list(self._iglob(pathname))
+
+    def iglob(self, pathname, **k):
+        return iter(self.glob(pathname, **k))
+
+    def _names(self, dirname):
+        fs = self._fs
+        d = dirname or '.'
+        if not fs.isdir(d):
+            return []
+        return list(fs.listdir(d))
+
+    def _iglob(self, pathname):
+        fs = self._fs
+        dirname, basename = posixpath.split(pathname)
+        if not self.has_magic(pathname):
+            if basename:
+                if fs.exists(pathname):
+                    yield pathname
+            elif fs.isdir(dirname):
+                yield pathname
+            return
+        if not dirname:
+            yield from self._glob1('', basename)
+            return
+        if dirname != pathname and self.has_magic(dirname):
+            dirs = self._iglob(dirname)
+        else:
+            dirs = [dirname]
+        for dn in dirs:
+            if self.has_magic(basename):
+                names = self._glob1(dn, basename)
+            else:
+                names = self._glob0(dn, basename)
+            for name in names:
+                yield posixpath.join(dn, name)
+
+    def _glob1(self, dirname, pattern):
+        names = self._names(dirname)
+        if not pattern.startswith('.'):
+            names = [n for n in names if not n.startswith('.')]
+        return _fnmatch.filter(names, pattern)
+
+    def _glob0(self, dirname, basename):
+        fs = self._fs
+        if not basename:
+            return [basename] if fs.isdir(dirname) else []
+        return [basename] if fs.exists(posixpath.join(dirname, basename)) else []
+
+
 class ShutilFacade:
     def __init__(self, fs):
         self._fs = fs
@@ -322,6 +391,7 @@ class Patched:
         _pool.SymPool.schedule = self.schedule
         osf = OsFacade(fs)
         shf = ShutilFacade(fs)
+        globf = GlobFacade(fs)
         mpf = _pool.MultiprocessingFacade()
         plt = _Recorder(fs, 'plt')
         import multiprocessing
@@ -353,6 +423,12 @@ class Patched:
                     new[k] = osf
                 elif isinstance(v, types.ModuleType) and v.__name__ == 'shutil':
                     new[k] = shf
+                elif v is _glob_mod:
+                    new[k] = globf
+                elif v is _glob_mod.glob:
+                    new[k] = globf.glob
+                elif v is _glob_mod.iglob:
+                    new[k] = globf.iglob
                 elif isinstance(v, types.ModuleType) and v.__name__ == 'multiprocessing':
                     new[k] = mpf
                 elif isinstance(v, types.ModuleType) and v.__name__ in ('matplotlib', 'matplotlib.pyplot'):
